@@ -62,6 +62,19 @@ REPLAYS = os.path.join(VERIF, "replays")
 KNOWN = os.path.join(VERIF, "known_findings.json")
 WORK_ROOT = os.path.join(VERIF, "work", "exlab")
 
+# Validation only (never used by the registered commands), same convention as /verif/check:
+# VERIF_REPO_OVERRIDE=<dir> runs the check against another copy of xgillard/ddo (a scratch worktree carrying a seeded
+# change) without touching /repo; the binaries are built in their own target directory and evidence / replays go to
+# /verif/work/override_<tag>/ instead of /verif/evidence and /verif/replays.
+REPO_OVERRIDE = os.environ.get("VERIF_REPO_OVERRIDE")
+if REPO_OVERRIDE:
+    REPO = os.path.abspath(REPO_OVERRIDE)
+    _odir = os.path.join(VERIF, "work", "override_" + hashlib.sha1(REPO.encode()).hexdigest()[:10])
+    TARGET = os.path.join(_odir, "target", "examples")
+    BIN_DIR = os.path.join(TARGET, "release", "examples")
+    EVIDENCE = os.path.join(_odir, "evidence")
+    REPLAYS = os.path.join(_odir, "replays")
+
 # Cold build measured on this machine: 29 s with the workspace's own release profile (fat LTO, panic=abort,
 # opt-level 3, no overflow checks).  That is well under the 4 minutes above which the profile would have been
 # overridden (lto off / 16 codegen units), so the binaries are built exactly as `cargo build --release --examples`
@@ -123,13 +136,13 @@ def build():
         log("\n".join(errs))
         log("...")
         log("\n".join(lines[-15:]))
-        log("BUILD FAILED: the example binaries could not be built from /repo's working tree")
+        log(f"BUILD FAILED: the example binaries could not be built from {REPO}'s working tree")
         return False, dt
     missing = [e.name for e in exlab_problems.ALL if not os.path.exists(os.path.join(BIN_DIR, e.name))]
     if missing:
         log(f"BUILD FAILED: no binary for {missing} in {BIN_DIR}")
         return False, dt
-    log(f"[build examples: {dt:.1f}s]")
+    log(f"[build examples: {dt:.1f}s]" + (f" [VERIF_REPO_OVERRIDE: {REPO} -> {os.path.dirname(EVIDENCE)}]" if REPO_OVERRIDE else ""))
     return True, dt
 
 
